@@ -14,7 +14,7 @@ theorem exists_plug_of_mem (h : Nat) : ∀ ks : List HTree, h ∈ handlesList ks
   | [] => by intro hm; simp at hm
   | .node h' v kids :: ks => by
     intro hm
-    simp only [handlesList_cons, handles_node, List.cons_append, List.mem_cons, List.mem_append] at hm
+    simp only [fi_handlesList_cons, fi_handles_node, List.cons_append, List.mem_cons, List.mem_append] at hm
     rcases hm with hm | hm | hm
     · exact ⟨[], [], .node h' v kids, ks, by simp, by simp [hm]⟩
     · obtain ⟨path, l, k, r, he, hk⟩ := exists_plug_of_mem h kids hm
@@ -36,7 +36,7 @@ theorem findSome?_ancestorsOf (h : Nat) (ks : List HTree) :
     rw [ancestorsOfList_cons, List.findSome?_cons, ← ih]
     cases ancestorsOf h k <;> rfl
 
-theorem not_mem_pathHandles_cons {h : Nat} {fr : Frame} {rest : List Frame}
+theorem not_mem_pathHandles_cons {h : Nat} {fr : ZipFrame} {rest : List ZipFrame}
     (hp : h ∉ pathHandles (fr :: rest)) :
     h ∉ handlesList fr.l ∧ fr.h ≠ h ∧ h ∉ pathHandles rest ∧ h ∉ handlesList fr.r := by
   simp only [pathHandles, List.mem_append, List.mem_cons, not_or] at hp
@@ -46,28 +46,28 @@ theorem fi_find?_self (h : Nat) (k : HTree) (hk : k.handle = h) : find? h k = so
   cases k with
   | node h' v ks => simp only [node_handle] at hk; rw [find?, if_pos hk]
 
-theorem findList?_plug (h : Nat) (path : List Frame) (l : List HTree) (k : HTree) (r : List HTree)
+theorem findList?_plug (h : Nat) (path : List ZipFrame) (l : List HTree) (k : HTree) (r : List HTree)
     (hk : k.handle = h) (hp : h ∉ pathHandles path) (hl : h ∉ handlesList l) :
     findList? h (plug path (l ++ k :: r)) = some k := by
   induction path with
   | nil =>
-    rw [plug_nil, findList?_append_of_not_mem h l _ hl, findList?_cons, fi_find?_self h k hk]; rfl
+    rw [plug_nil, fi_findList?_append_of_not_mem h l _ hl, fi_findList?_cons, fi_find?_self h k hk]; rfl
   | cons fr rest ih =>
     obtain ⟨h1, h2, h3, _⟩ := not_mem_pathHandles_cons hp
-    rw [plug_cons, findList?_append_of_not_mem h _ _ h1, findList?_cons, find?, if_neg h2, ih h3]
+    rw [plug_cons, fi_findList?_append_of_not_mem h _ _ h1, fi_findList?_cons, find?, if_neg h2, ih h3]
     rfl
 
-theorem replaceKids_plug (h : Nat) (g : HTree → List HTree) (path : List Frame) (l : List HTree)
+theorem replaceKids_plug (h : Nat) (g : HTree → List HTree) (path : List ZipFrame) (l : List HTree)
     (k : HTree) (r : List HTree)
     (hk : k.handle = h) (hp : h ∉ pathHandles path) (hl : h ∉ handlesList l) :
     replaceKids h g (plug path (l ++ k :: r)) = plug path (l ++ g k ++ r) := by
   induction path with
   | nil =>
-    rw [plug_nil, replaceKids_append_of_not_mem h g l _ hl, replaceKids_cons, if_pos hk]
+    rw [plug_nil, fi_replaceKids_append_of_not_mem h g l _ hl, replaceKids_cons, if_pos hk]
     simp
   | cons fr rest ih =>
     obtain ⟨h1, h2, h3, h4⟩ := not_mem_pathHandles_cons hp
-    rw [plug_cons, replaceKids_append_of_not_mem h g _ _ h1, replaceKids_cons, if_neg (by simpa using h2),
+    rw [plug_cons, fi_replaceKids_append_of_not_mem h g _ _ h1, replaceKids_cons, if_neg (by simpa using h2),
       replaceBelow, ih h3, replaceKids_of_not_mem h g _ h4]
     rfl
 
@@ -84,10 +84,10 @@ theorem handle_ne_of_not_mem_handlesList {h : Nat} {ks : List HTree} (hm : h ∉
   intro k hk e
   apply hm
   obtain ⟨a, b, rfl⟩ := List.append_of_mem hk
-  simp only [fi_handlesList_append, handlesList_cons, List.mem_append]
+  simp only [fi_handlesList_append, fi_handlesList_cons, List.mem_append]
   exact Or.inr (Or.inl (e ▸ fi_handle_mem_handles k))
 
-theorem root_handle_ne_of_plug_cons {h : Nat} {fr : Frame} {rest : List Frame} {ks : List HTree}
+theorem root_handle_ne_of_plug_cons {h : Nat} {fr : ZipFrame} {rest : List ZipFrame} {ks : List HTree}
     (hp : h ∉ pathHandles (fr :: rest)) : ∀ k ∈ plug (fr :: rest) ks, k.handle ≠ h := by
   obtain ⟨h1, h2, _, h4⟩ := not_mem_pathHandles_cons hp
   intro k hk
@@ -97,7 +97,7 @@ theorem root_handle_ne_of_plug_cons {h : Nat} {fr : Frame} {rest : List Frame} {
   · subst hk; simpa using h2
   · exact handle_ne_of_not_mem_handlesList h4 k hk
 
-theorem mapAtList_plug (h : Nat) (g : HTree → HTree) (path : List Frame) (l : List HTree)
+theorem mapAtList_plug (h : Nat) (g : HTree → HTree) (path : List ZipFrame) (l : List HTree)
     (k : HTree) (r : List HTree)
     (hk : k.handle = h) (hp : h ∉ pathHandles path) (hl : h ∉ handlesList l)
     (hr : h ∉ handlesList r) :
@@ -119,7 +119,7 @@ theorem ctxKids_plug_nil (h p : Nat) (acc l : List HTree) (k : HTree) (r : List 
     ctxKids h p acc (l ++ k :: r) = some ⟨p, acc ++ l, k, r⟩ := by
   rw [ctxKids_append_of_not_mem h p l _ acc hl, ctxKids_cons, if_pos hk]
 
-theorem ctxKids_plug (h p : Nat) (acc : List HTree) (path : List Frame) (fr : Frame)
+theorem ctxKids_plug (h p : Nat) (acc : List HTree) (path : List ZipFrame) (fr : ZipFrame)
     (l : List HTree) (k : HTree) (r : List HTree)
     (hk : k.handle = h) (hp : h ∉ pathHandles (path ++ [fr])) (hl : h ∉ handlesList l) :
     ctxKids h p acc (plug (path ++ [fr]) (l ++ k :: r)) = some ⟨fr.h, l, k, r⟩ := by
@@ -140,10 +140,10 @@ theorem findSome?_ctxBelow_append_of_not_mem (h : Nat) (l rest : List HTree) (hm
   induction l with
   | nil => rfl
   | cons k ks ih =>
-    simp only [handlesList_cons, List.mem_append, not_or] at hm
+    simp only [fi_handlesList_cons, List.mem_append, not_or] at hm
     have hkids : h ∉ handlesList k.kids := by
       intro hc; apply hm.1; rw [fi_handles_eq]; exact List.mem_cons_of_mem _ hc
-    rw [List.cons_append, List.findSome?_cons, ctxBelow_of_not_mem h k hkids]
+    rw [List.cons_append, List.findSome?_cons, fi_ctxBelow_of_not_mem h k hkids]
     exact ih hm.2
 
 theorem findSome?_ctxBelow_none (h : Nat) (ks : List HTree)
@@ -151,11 +151,11 @@ theorem findSome?_ctxBelow_none (h : Nat) (ks : List HTree)
   induction ks with
   | nil => rfl
   | cons k ks ih =>
-    rw [List.findSome?_cons, ctxBelow_of_not_mem h k (hm k (by simp))]
+    rw [List.findSome?_cons, fi_ctxBelow_of_not_mem h k (hm k (by simp))]
     exact ih (fun k' hk' => hm k' (by simp [hk']))
 
 /-- Context of a non-root node. -/
-theorem ctxRoots_plug (h : Nat) (path : List Frame) (fr : Frame)
+theorem ctxRoots_plug (h : Nat) (path : List ZipFrame) (fr : ZipFrame)
     (l : List HTree) (k : HTree) (r : List HTree)
     (hk : k.handle = h) (hp : h ∉ pathHandles (path ++ [fr])) (hl : h ∉ handlesList l) :
     (plug (path ++ [fr]) (l ++ k :: r)).findSome? (ctxBelow h) = some ⟨fr.h, l, k, r⟩ := by
@@ -174,7 +174,7 @@ theorem fi_ancestorsOf_self (h : Nat) (k : HTree) (hk : k.handle = h) : ancestor
   cases k with
   | node h' v ks => simp only [node_handle] at hk; rw [ancestorsOf, if_pos hk, hk]
 
-theorem ancestorsOfList_plug (h : Nat) (path : List Frame) (l : List HTree) (k : HTree) (r : List HTree)
+theorem ancestorsOfList_plug (h : Nat) (path : List ZipFrame) (l : List HTree) (k : HTree) (r : List HTree)
     (hk : k.handle = h) (hp : h ∉ pathHandles path) (hl : h ∉ handlesList l) :
     ancestorsOfList h (plug path (l ++ k :: r)) = some (h :: (path.map (·.h)).reverse) := by
   induction path with
